@@ -193,6 +193,27 @@ fn find_ref(o: &Object, id: ObjectId, top: bool) -> Option<&'static str> {
 }
 
 
+/// where references to `id` survive in anything a traversal from the trailer reaches: the trailer's own entries, the
+/// containers under it, and every object reachable from it (whether a dictionary, an array, a STREAM's dictionary or an
+/// object that is itself the reference); empty when none is left
+fn surviving_refs(doc: &Document, id: ObjectId) -> Vec<String> {
+    let mut out = vec![];
+    if let Some((k, _)) = doc.trailer.iter().find(|(_, v)| is_ref_to(v, id)) {
+        out.push(format!("the trailer (key {})", String::from_utf8_lossy(k)));
+    }
+    if let Some(w) = doc.trailer.iter().filter(|(_, v)| !is_ref_to(v, id)).find_map(|(_, v)| find_ref(v, id, false)) {
+        out.push(format!("{} under the trailer", w));
+    }
+    for k in reach(doc) {
+        if let Some(o) = doc.objects.get(&k) {
+            if let Some(w) = find_ref(o, id, true) {
+                out.push(format!("{} (object {:?})", w, k));
+            }
+        }
+    }
+    out
+}
+
 // ---------------- pages, contents, resources: the abstract document of the property ----------------
 fn quiet<T>(f: impl FnOnce() -> T) -> Option<T> {
     catch_unwind(AssertUnwindSafe(f)).ok()
@@ -589,18 +610,8 @@ fn main() {
                     ck.req(n, doc.trailer == before.trailer || doc.trailer == strip_dict_spec(&before.trailer, *id),
                            || "delete_object altered the trailer beyond removing references".into());
                     // no reference to the deleted id anywhere a traversal from the trailer reaches
-                    if let Some((k, _)) = doc.trailer.iter().find(|(_, v)| is_ref_to(v, *id)) {
-                        ck.req(n, false, || format!("delete_object({:?}) left a reference to it in the trailer (key {})", id, String::from_utf8_lossy(k)));
-                    }
-                    if let Some(w) = doc.trailer.iter().filter(|(_, v)| !is_ref_to(v, *id)).find_map(|(_, v)| find_ref(v, *id, false)) {
-                        ck.req(n, false, || format!("delete_object({:?}) left a reference to it in {} under the trailer", id, w));
-                    }
-                    for k in reach(&doc) {
-                        if let Some(o) = doc.objects.get(&k) {
-                            if let Some(w) = find_ref(o, *id, true) {
-                                ck.req(n, false, || format!("delete_object({:?}) left a reference to it in {} (object {:?})", id, w, k));
-                            }
-                        }
+                    for w in surviving_refs(&doc, *id) {
+                        ck.req(n, false, || format!("delete_object({:?}) left a reference to it in {}", id, w));
                     }
                     // the returned object is the one that was stored (possibly without self references)
                     let want = before.objects.get(id);
@@ -649,6 +660,60 @@ fn main() {
                 Op::DelPages(nums) => {
                     ck.req(n, before.trailer == doc.trailer || true, || String::new());
                     ck.req(n, before.max_id == doc.max_id, || "delete_pages changed max_id".into());
+                    if !panicked {
+                        // every page the call names is deleted with delete_object: the object is gone and no reference to
+                        // its id survives anywhere a traversal from the trailer reaches (whatever the shape of the page tree)
+                        let listed = before.get_pages();
+                        let mut named: Vec<ObjectId> = vec![];       // in the order of the call, each page once
+                        for k in nums {
+                            if let Some(p) = listed.get(k) {
+                                if !named.contains(p) {
+                                    named.push(*p);
+                                }
+                            }
+                        }
+                        for pid in &named {
+                            ck.req(n, !doc.objects.contains_key(pid), || format!("delete_pages({:?}) left the page object {:?} in place", nums, pid));
+                            for w in surviving_refs(&doc, *pid) {
+                                ck.req(n, false, || format!("delete_pages({:?}) left a reference to the deleted page {:?} in {}", nums, pid, w));
+                            }
+                        }
+                        // frame: every other object is what it was, or what it was without the references to the pages deleted
+                        // so far (an object that a deletion cuts off from the trailer is not touched by the later ones), and a
+                        // dictionary may in addition have its integer Count changed (the Pages nodes above a deleted page)
+                        let same_but_count = |x: &Object, y: &Object| match (x, y) {
+                            (Object::Dictionary(a), Object::Dictionary(b)) => {
+                                matches!((a.get(b"Count"), b.get(b"Count")), (Ok(Object::Integer(_)), Ok(Object::Integer(_)))) && {
+                                    let (mut a, mut b) = (a.clone(), b.clone());
+                                    a.remove(b"Count");
+                                    b.remove(b"Count");
+                                    a == b
+                                }
+                            }
+                            _ => false,
+                        };
+                        for (k, o) in &before.objects {
+                            if named.contains(k) {
+                                continue;
+                            }
+                            if let Some(o2) = doc.objects.get(k) {
+                                let mut cur = o.clone();
+                                let mut ok = cur == *o2 || same_but_count(&cur, o2);
+                                for pid in &named {
+                                    cur = strip_spec(&cur, *pid);
+                                    ok = ok || cur == *o2 || same_but_count(&cur, o2);
+                                }
+                                ck.req(n, ok, || format!("delete_pages({:?}) altered {:?} beyond removing references to the deleted pages {:?} and adjusting Count", nums, k, named));
+                            }
+                        }
+                        let mut tcur = before.trailer.clone();
+                        let mut tok = tcur == doc.trailer;
+                        for pid in &named {
+                            tcur = strip_dict_spec(&tcur, *pid);
+                            tok = tok || tcur == doc.trailer;
+                        }
+                        ck.req(n, tok, || format!("delete_pages({:?}) altered the trailer beyond removing references to the deleted pages", nums));
+                    }
                     if !panicked && tree_wf(&before) {
                         let old: Vec<ObjectId> = before.page_iter().collect();
                         let want: Vec<ObjectId> = old.iter().enumerate().filter(|(i, _)| !nums.contains(&((*i + 1) as u32))).map(|(_, p)| *p).collect();
